@@ -1,3 +1,4 @@
 //! Shared generators.
+pub mod abv;
 pub mod batch;
 pub mod values;
